@@ -532,6 +532,13 @@ func (m *MTable) rowFailureKinds(s *Stmt, i int) []rowErr {
 		}
 		raw[ci] = v
 		if _, err, _ := coerce(c, v, false); err != "" {
+			// a CHECK over a column whose value is not representable has no defined truth
+			// value: the engine may evaluate it on the unconverted value and report it first
+			for _, ck := range t.Checks {
+				if !ck.NotEnforced && (ck.A == ci || (ck.BIsCol && ck.B == ci)) {
+					kinds = append(kinds, "check")
+				}
+			}
 			kinds = append(kinds, err)
 		}
 	}
